@@ -25,7 +25,7 @@ ASSUMPTIONS = [
     "Which exception is raised is not compared.",
 ]
 REQUIRED_CLASSES = ["in-order", "misordered", "unknown-name", "ignored-name", "contig-without-data", "cut-inside-group", "last-group-misplaced",
-                    "iter", "pileup", "mask-sum", "compute", "track", "multistream", "forbes-jaccard", "kept-underscore-name", "text-typed-contig-column"]
+                    "iter", "pileup", "mask-sum", "compute", "track", "multistream", "forbes-jaccard", "kept-underscore-name", "text-typed-contig-column", "long-groups"]
 BOUNDS = {"quick": "genomes of 3 contigs (+1 ignored): every group sequence over 5 labels (326) x 3 chunkings x 7 consumers; 4-contig genomes sampled (600)",
           "thorough": "genomes of up to 4 contigs: every group sequence over 6 labels (1957) x 4 chunkings x 7 consumers; 5000 sampled"}
 BUDGET_S = {"quick": 200, "thorough": 1500}
@@ -75,6 +75,8 @@ def classify(case):
         cl.append("unknown-name")
     if any(g in ignored for g in seq):
         cl.append("ignored-name")
+    if max(case["sizes"]) >= 31:
+        cl.append("long-groups")
     if case.get("text_key") and case["consumer"] in ("iter", "multistream"):
         cl.append("text-typed-contig-column")
     if any("_" in g and g in genome and g not in ignored for g in seq):
@@ -317,9 +319,13 @@ def sampled_case(draw):
         seq = seq or in_order[:1]
     else:
         seq = draw(st.lists(st.sampled_from(labels), min_size=1, max_size=len(labels), unique=True))
-    sizes = draw(st.lists(st.integers(1, 3), min_size=1, max_size=4))
+    if draw(st.integers(0, 3)) == 0:
+        # long groups whose boundaries fall on and next to powers of two (block-wise shortcuts in grouping code work at such strides)
+        sizes = draw(st.lists(st.sampled_from([1, 2, 31, 32, 33, 63, 64, 65, 127, 128, 129, 150, 192, 200, 256, 257]), min_size=1, max_size=4))
+    else:
+        sizes = draw(st.lists(st.integers(1, 3), min_size=1, max_size=4))
     n_entries = sum(sizes[i % len(sizes)] for i in range(len(seq)))
-    cuts = draw(st.lists(st.integers(1, max(1, n_entries)), max_size=6))
+    cuts = draw(st.one_of(st.just([]), st.lists(st.integers(1, max(1, n_entries)), max_size=6)))
     return {"genome": genome, "ignored": ignored, "groups": seq, "sizes": sizes, "cuts": cuts, "consumer": draw(st.sampled_from(CONSUMERS)),
             "text_key": draw(st.booleans())}
 
